@@ -1,6 +1,9 @@
 package main
 
-import "regexp"
+import (
+	"regexp"
+	"time"
+)
 
 func init() {
 	props = append(props, prop{
@@ -11,9 +14,11 @@ func init() {
 			"hook callbacks (build tag verif) only delay; VerifJobs/VerifBacklog read under the connection's own mutex",
 		}, commonAssumptions...),
 		Phases: []phase{
-			{Name: "main", Pkg: "./workers/c05", QuickShards: 8, ThorShards: 14},
-			{Name: "race", Pkg: "./workers/c05", Race: true, QuickShards: 4, ThorShards: 8},
+			{Name: "main", Pkg: "./workers/c05", QuickShards: 8, ThorShards: 14, QuickTO: 4 * time.Minute},
+			{Name: "race", Pkg: "./workers/c05", Race: true, QuickShards: 4, ThorShards: 8, QuickTO: 4 * time.Minute},
 		},
-		RaceFuncs: regexp.MustCompile(`^nbio\.\(\*Conn\)\.(Execute|MustExecute|execute)$`),
+		// the optional prefix covers inlining: execute's closure inlined into Execute is
+		// reported as nbio.(*Conn).Execute.(*Conn).execute.func1
+		RaceFuncs: regexp.MustCompile(`^nbio\.(.+\.)?\(\*Conn\)\.(Execute|MustExecute|execute)$`),
 	})
 }
